@@ -47,6 +47,13 @@ GenCfg draw_cfg(Rng& rng)
     c.multiline = rng.chance(0.5);
     c.anonymous_locs = rng.chance(0.5);
     c.depth = rng.range(1, 3);
+    if (rng.chance(0.08)) {
+        // now and then a large model: the k-th template, the n-th location, many edges on one location
+        c.max_templates = rng.range(4, 8);
+        c.max_locs = rng.range(6, 14);
+        c.max_edges = rng.range(10, 26);
+        c.max_gdecls = rng.range(10, 30);
+    }
     return c;
 }
 
